@@ -301,11 +301,13 @@ func runC07(r *fw.Run, p *fw.Program) {
 	c07OrigRule(r, p, jq, ref)
 	c07SameDef(r, p, jq, ref)
 	c07Split(r, p, jq, ref)
-	c07QuoteMeta(r, p, jq)
+	c07QuoteMeta(r, p, jq, ref)
 	c07PassThru(r, p, jq, goReg)
+	c07Stdio(r, p, jq, goReg)
 	c07ExtType(r, p, goReg)
 	c07ToJSON(r, p, jq, goReg)
 	c07Encoder(r, p, ref)
+	c07ScanRule(r, p)
 	c07Eval(r, p)
 	// fromjson / json decode: exactly one value then EOF (borrowed from C16.text.eof: the same decoder serves fromjson)
 	{
@@ -316,6 +318,7 @@ func runC07(r *fw.Run, p *fw.Program) {
 	}
 	// halt_error output (shared with C17.go): string raw, null nothing, everything else compact JSON + newline
 	c17HaltPrintAs(r, p, "C07.haltprint")
+	c07HaltStream(r, p)
 	// jq values are immutable
 	jqImmutAs(r, p, "C07.immut")
 }
@@ -493,124 +496,6 @@ func c07jqArgsAreParams(f *gojq.Func, fd *gojq.FuncDef) bool {
 }
 
 // ---------------------------------------------------------------------------
-// C07.orig
-
-func c07OrigRule(r *fw.Run, p *fw.Program, jq *fw.JQ, ref *c07Ref) {
-	ru := r.Rule("C07.orig", "every orig-dispatch override f/n: alias _orig_f/n defined earlier in the same file with body f(params in order); override is _binary_or_orig/_bytes_or_orig(B; _orig_f(params in order)); the dispatchers select their 2nd closure exactly when _exttype != \"binary\"", 24)
-	// dispatchers
-	bo := jq.Def("", "_binary_or_orig", 2)
-	if bo == nil {
-		ru.Undecided("_binary_or_orig/2", "", "dispatcher not found")
-	} else {
-		fd := bo.Def
-		ok := false
-		msg := "body is not `if _exttype == \"binary\" then <1st closure> else <2nd closure> end`"
-		b := c07jqUnparen(fd.Body)
-		if b != nil && b.Left == nil && b.Term != nil && b.Term.Type == gojq.TermTypeIf && len(b.Term.SuffixList) == 0 {
-			iff := b.Term.If
-			c := c07jqUnparen(iff.Cond)
-			condOK := false
-			if c != nil && c.Op == gojq.OpEq && c.Left != nil && c.Right != nil {
-				l, rr := c.Left, c.Right
-				if _, isStr := fw.JQConstString(l); isStr {
-					l, rr = rr, l
-				}
-				s, isStr := fw.JQConstString(rr)
-				condOK = isStr && s == "binary" && fw.JQIsCall(l, "_exttype", 0) != nil
-			}
-			switch {
-			case !condOK:
-				msg = "condition is not `_exttype == \"binary\"`"
-			case len(iff.Elif) != 0:
-				msg = "unexpected elif"
-			case !c07jqIsParamRef(iff.Then, fd, 0):
-				msg = "then-branch is not the binary closure (1st parameter)"
-			case !c07jqIsParamRef(iff.Else, fd, 1):
-				msg = "else-branch is not the original closure (2nd parameter): non-binary input no longer reaches the original builtin"
-			default:
-				ok = true
-			}
-		}
-		ru.Check(ok, "_binary_or_orig/2", c07jqPos(bo), "if _exttype == \"binary\" then bfn else fn end", msg)
-		if len(jq.TopDefs("_binary_or_orig", 2)) != 1 {
-			ru.Fail("_binary_or_orig/2:unique", c07jqPos(bo), "dispatcher defined more than once")
-		}
-	}
-	by := jq.Def("", "_bytes_or_orig", 2)
-	if by == nil {
-		ru.Undecided("_bytes_or_orig/2", "", "dispatcher not found")
-	} else {
-		f := fw.JQIsCall(by.Def.Body, "_binary_or_orig", 2)
-		ok := f != nil && c07jqIsParamRef(f.Args[1], by.Def, 1)
-		if ok {
-			// the original closure must not also be used inside the binary arm, and the binary arm must use bfn
-			for _, c := range fw.JQCalls(f.Args[0]) {
-				if c.Name == by.Def.Args[1] {
-					ok = false
-				}
-			}
-		}
-		ru.Check(ok, "_bytes_or_orig/2", c07jqPos(by), "_binary_or_orig(<bytes arm>; fn)", "body is not `_binary_or_orig(<arm using bfn>; fn)` with the original closure passed through unchanged as 2nd argument")
-		if bo != nil && (by.File != bo.File || by.Order < bo.Order) {
-			ru.Fail("_bytes_or_orig/2:order", c07jqPos(by), "defined before _binary_or_orig")
-		}
-	}
-	// _exttype must be the Go-registered function, not redefined in jq
-	if d := jq.Def("", "_exttype", 0); d != nil {
-		ru.Fail("_exttype/0:jq", c07jqPos(d), "_exttype is redefined in jq")
-	}
-
-	for _, k := range fw.SortedKeys(c07Shadow) {
-		if c07Shadow[k] != clsOrig {
-			continue
-		}
-		var name string
-		var ar int
-		name = k[:strings.LastIndex(k, "/")]
-		fmt.Sscanf(k[strings.LastIndex(k, "/")+1:], "%d", &ar)
-		over := jq.Def("", name, ar)
-		if over == nil {
-			ru.Undecided(k, "", "override not found")
-			continue
-		}
-		alias := jq.Def(over.File.Rel, "_orig_"+name, ar)
-		if alias == nil {
-			ru.Fail(k+":alias", c07jqPos(over), "no _orig_"+name+" alias in "+over.File.Rel)
-			continue
-		}
-		// alias: body is exactly name(params...) and it precedes the override (so it binds to the engine's builtin)
-		ac := fw.JQIsCall(alias.Def.Body, name, ar)
-		switch {
-		case ac == nil:
-			ru.Fail(k+":alias", c07jqPos(alias), "alias body is not a plain call of "+k)
-		case !c07jqArgsAreParams(ac, alias.Def):
-			ru.Fail(k+":alias", c07jqPos(alias), "alias does not pass its parameters in order to "+k)
-		case alias.Order >= over.Order:
-			ru.Fail(k+":alias", c07jqPos(alias), "alias is defined after the override: it calls fq's override (infinite recursion / wrong function), not the engine's builtin")
-		case len(jq.TopDefs("_orig_"+name, ar)) != 1:
-			ru.Fail(k+":alias", c07jqPos(alias), "alias defined more than once")
-		default:
-			ru.Ok(k+":alias", c07jqPos(alias), "_orig_"+k+" = "+fw.JQStr(alias.Def.Body)+", before the override")
-		}
-		// override
-		oc := fw.JQIsCall(over.Def.Body, "", 2)
-		if oc == nil || (oc.Name != "_binary_or_orig" && oc.Name != "_bytes_or_orig") {
-			ru.Fail(k+":override", c07jqPos(over), "override body is not a _binary_or_orig/_bytes_or_orig dispatch")
-			continue
-		}
-		orig := fw.JQIsCall(oc.Args[1], "_orig_"+name, ar)
-		switch {
-		case orig == nil:
-			ru.Fail(k+":override", c07jqPos(over), "the non-binary slot is not a plain call of _orig_"+k+" (got `"+fw.JQStr(oc.Args[1])+"`)")
-		case !c07jqArgsAreParams(orig, over.Def):
-			ru.Fail(k+":override", c07jqPos(over), "the original is not called with the override's parameters in order (got `"+fw.JQStr(oc.Args[1])+"`)")
-		default:
-			ru.Ok(k+":override", c07jqPos(over), oc.Name+"(…; "+fw.JQStr(oc.Args[1])+")")
-		}
-	}
-}
-
-// ---------------------------------------------------------------------------
 // C07.samedef: canonical comparison with the engine's own jq definition
 
 // jqCloneDef re-parses the canonical print of a definition: a private deep copy that may be rewritten.
@@ -634,54 +519,141 @@ func c07jqEachTerm(q *gojq.Query, f func(t *gojq.Term)) {
 
 // jqSubst replaces zero-argument calls of the closure parameters of fd inside body by the given argument queries.
 func c07jqSubst(body *gojq.Query, params []string, args []*gojq.Query) {
+	// two phases: the substituted arguments may mention the same names and must not be visited again
+	type repl struct {
+		t *gojq.Term
+		i int
+	}
+	var todo []repl
 	c07jqEachTerm(body, func(t *gojq.Term) {
 		if t.Type != gojq.TermTypeFunc || t.Func == nil || len(t.Func.Args) != 0 {
 			return
 		}
 		for i, pn := range params {
 			if t.Func.Name == pn {
-				t.Type = gojq.TermTypeQuery
-				t.Func = nil
-				t.Query = args[i]
+				todo = append(todo, repl{t, i})
 				return
 			}
 		}
 	})
+	for _, x := range todo {
+		x.t.Type = gojq.TermTypeQuery
+		x.t.Func = nil
+		x.t.Query = args[x.i]
+	}
 }
 
 // jqInlinePrivate inlines (one level, repeated up to depth 3) calls to bundled top-level helpers whose name
 // starts with "_" and whose parameters are all closures; this is beta-reduction, meaning-preserving in jq.
 func c07jqInlinePrivate(jq *fw.JQ, ref *c07Ref, body *gojq.Query, depth int) {
+	c07jqInline(jq, ref, body, depth, nil)
+}
+
+// c07jqPureArg: a call argument that is a variable reference or a scalar literal: it has exactly one output,
+// does not depend on the input and has no effect, so a $value parameter bound to it can be substituted.
+func c07jqPureArg(q *gojq.Query) bool {
+	q = c07jqUnparen(q)
+	if q == nil || q.Left != nil || len(q.FuncDefs) != 0 || q.Term == nil || len(q.Term.SuffixList) != 0 {
+		return false
+	}
+	switch q.Term.Type {
+	case gojq.TermTypeFunc:
+		return q.Term.Func != nil && strings.HasPrefix(q.Term.Func.Name, "$") && len(q.Term.Func.Args) == 0
+	case gojq.TermTypeNull, gojq.TermTypeTrue, gojq.TermTypeFalse, gojq.TermTypeNumber:
+		return true
+	case gojq.TermTypeString:
+		return q.Term.Str != nil && len(q.Term.Str.Queries) == 0
+	}
+	return false
+}
+
+// c07jqRebinds: the body binds one of the names again (pattern, nested definition or its parameters).
+func c07jqRebinds(body *gojq.Query, names map[string]bool) bool {
+	found := false
+	fw.WalkJQ(body, func(n any) bool {
+		switch x := n.(type) {
+		case *gojq.Pattern:
+			if names[x.Name] {
+				found = true
+			}
+			for _, o := range x.Object {
+				if names[o.Key] {
+					found = true
+				}
+			}
+		case *gojq.FuncDef:
+			if names[x.Name] {
+				found = true
+			}
+			for _, a := range x.Args {
+				if names[a] || names[strings.TrimPrefix(a, "$")] {
+					found = true
+				}
+			}
+		}
+		return true
+	}, false)
+	return found
+}
+
+// c07jqInline is c07jqInlinePrivate with a stop predicate (definitions that play a role of their own and must
+// stay visible as calls). $value parameters are substituted too when the argument is pure (c07jqPureArg).
+func c07jqInline(jq *fw.JQ, ref *c07Ref, body *gojq.Query, depth int, stop func(d *fw.JQDef) bool) {
 	if depth > 3 {
 		return
 	}
+	// two phases: the inlined bodies are processed by the recursive call (bounded by depth), not by this walk
+	var cands []*gojq.Term
 	c07jqEachTerm(body, func(t *gojq.Term) {
-		if t.Type != gojq.TermTypeFunc || t.Func == nil || !strings.HasPrefix(t.Func.Name, "_") {
-			return
+		if t.Type == gojq.TermTypeFunc && t.Func != nil && strings.HasPrefix(t.Func.Name, "_") {
+			cands = append(cands, t)
 		}
-		key := fw.JQFuncKey(t.Func)
-		if ref.has(key) {
-			return
-		}
-		ds := jq.TopDefs(t.Func.Name, len(t.Func.Args))
-		if len(ds) != 1 {
-			return
-		}
-		for _, a := range ds[0].Def.Args {
-			if strings.HasPrefix(a, "$") {
+	})
+	for _, t := range cands {
+		func() {
+			if t.Type != gojq.TermTypeFunc || t.Func == nil {
+				return // shared subtree, already replaced
+			}
+			key := fw.JQFuncKey(t.Func)
+			if ref.has(key) {
 				return
 			}
-		}
-		cl, err := c07jqCloneDef(ds[0].Def)
-		if err != nil {
-			return
-		}
-		c07jqSubst(cl.Body, cl.Args, t.Func.Args)
-		c07jqInlinePrivate(jq, ref, cl.Body, depth+1)
-		t.Type = gojq.TermTypeQuery
-		t.Func = nil
-		t.Query = cl.Body
-	})
+			ds := jq.TopDefs(t.Func.Name, len(t.Func.Args))
+			if len(ds) != 1 || (stop != nil && stop(ds[0])) {
+				return
+			}
+			var params []string
+			names := map[string]bool{}
+			for i, a := range ds[0].Def.Args {
+				if strings.HasPrefix(a, "$") {
+					if !c07jqPureArg(t.Func.Args[i]) {
+						return
+					}
+					params = append(params, a)
+					names[a], names[strings.TrimPrefix(a, "$")] = true, true
+				}
+			}
+			if len(params) > 0 && c07jqRebinds(ds[0].Def.Body, names) {
+				return
+			}
+			cl, err := c07jqCloneDef(ds[0].Def)
+			if err != nil {
+				return
+			}
+			ps, as := append([]string{}, cl.Args...), append([]*gojq.Query{}, t.Func.Args...)
+			for i, a := range cl.Args {
+				if strings.HasPrefix(a, "$") {
+					// def f($a) also defines the closure a
+					ps, as = append(ps, strings.TrimPrefix(a, "$")), append(as, t.Func.Args[i])
+				}
+			}
+			c07jqSubst(cl.Body, ps, as)
+			c07jqInline(jq, ref, cl.Body, depth+1, stop)
+			t.Type = gojq.TermTypeQuery
+			t.Func = nil
+			t.Query = cl.Body
+		}()
+	}
 }
 
 // jqCanon prints a definition body with parameters renamed positionally and redundant parentheses removed.
@@ -699,6 +671,17 @@ func c07jqCanon(fd *gojq.FuncDef) string {
 			if n, ok := ren[t.Func.Name]; ok {
 				t.Func.Name = n
 			}
+		}
+	})
+	// `if a != b then X else Y end` is `if a == b then Y else X end`
+	c07jqEachTerm(fd.Body, func(t *gojq.Term) {
+		if t.Type != gojq.TermTypeIf || t.If == nil || len(t.If.Elif) != 0 || t.If.Else == nil {
+			return
+		}
+		c := c07jqUnparen(t.If.Cond)
+		if c != nil && c.Op == gojq.OpNe && c.Left != nil && c.Right != nil && len(c.FuncDefs) == 0 {
+			t.If.Cond = &gojq.Query{Left: c.Left, Op: gojq.OpEq, Right: c.Right}
+			t.If.Then, t.If.Else = t.If.Else, t.If.Then
 		}
 	})
 	// remove parentheses around single terms, bottom-up until stable
@@ -780,38 +763,55 @@ func c07Split(r *fw.Run, p *fw.Program, jq *fw.JQ, ref *c07Ref) {
 	}
 	if d := jq.Def("", "split", 2); d == nil {
 		ru.Undecided("split/2", "", "not found")
+	} else if cl := c07SplitInlined(jq, ref, d); cl == nil {
+		ru.Undecided("split/2", c07jqPos(d), "cannot re-parse")
 	} else {
 		ok := false
-		b := c07jqUnparen(d.Def.Body)
+		b := c07jqUnparen(cl.Body)
 		if b != nil && b.Left == nil && b.Term != nil && b.Term.Type == gojq.TermTypeArray && len(b.Term.SuffixList) == 0 && b.Term.Array != nil {
-			if f := fw.JQIsCall(b.Term.Array.Query, "splits", 2); f != nil && c07jqArgsAreParams(f, d.Def) {
+			if f := fw.JQIsCall(b.Term.Array.Query, "splits", 2); f != nil && c07jqArgsAreParams(f, cl) {
 				ok = true
 			}
 		}
-		ru.Check(ok, "split/2", c07jqPos(d), "[splits($regex; $flags)]", "body is not `[splits(<param 1>; <param 2>)]`: got `"+fw.JQStr(d.Def.Body)+"`")
+		ru.Check(ok, "split/2", c07jqPos(d), "[splits($regex; $flags)]", "body is not `[splits(<param 1>; <param 2>)]`: got `"+fw.JQStr(cl.Body)+"`")
 	}
-	if d := jq.Def("", "split", 1); d == nil {
+	if d0 := jq.Def("", "split", 1); d0 == nil {
 		ru.Undecided("split/1", "", "not found")
+	} else if d := c07SplitInlined(jq, ref, d0); d == nil {
+		ru.Undecided("split/1", c07jqPos(d0), "cannot re-parse")
 	} else {
 		ok := false
-		msg := "body is not `[splits(<param> | <regexp quote>)]`: got `" + fw.JQStr(d.Def.Body) + "`"
-		b := c07jqUnparen(d.Def.Body)
+		msg := "body is not `[splits(<param> | <regexp quote>)]`: got `" + fw.JQStr(d.Body) + "`"
+		b := c07jqUnparen(d.Body)
 		if b != nil && b.Left == nil && b.Term != nil && b.Term.Type == gojq.TermTypeArray && len(b.Term.SuffixList) == 0 && b.Term.Array != nil {
 			if f := fw.JQIsCall(b.Term.Array.Query, "splits", 1); f != nil {
 				st := fw.JQPipeline(f.Args[0])
-				if len(st) == 2 && c07jqIsParamRef(st[0], d.Def, 0) {
+				if len(st) == 2 && c07jqIsParamRef(st[0], d, 0) {
 					if qc := fw.JQIsCall(st[1], "", 0); qc != nil && c07IsQuoteDef(jq, qc.Name) != nil {
 						ok = true
 					} else {
 						msg = "the separator is not piped through a regexp-quoting definition (gsub of a metacharacter class): a literal separator would be interpreted as a regular expression"
 					}
-				} else if len(st) == 1 && c07jqIsParamRef(st[0], d.Def, 0) {
+				} else if len(st) == 1 && c07jqIsParamRef(st[0], d, 0) {
 					msg = "the separator reaches splits/1 unquoted: split/1 must split on a literal string, not a regular expression"
 				}
 			}
 		}
-		ru.Check(ok, "split/1", c07jqPos(d), "[splits($val | <quote>)]", msg)
+		ru.Check(ok, "split/1", c07jqPos(d0), "[splits($val | <quote>)]", msg)
 	}
+}
+
+// c07SplitInlined: a private copy of a split definition with fq's private helpers beta-reduced, except the
+// regexp-quoting definition (a role of its own, C07.quotemeta).
+func c07SplitInlined(jq *fw.JQ, ref *c07Ref, d *fw.JQDef) *gojq.FuncDef {
+	cl, err := c07jqCloneDef(d.Def)
+	if err != nil {
+		return nil
+	}
+	c07jqInline(jq, ref, cl.Body, 0, func(x *fw.JQDef) bool {
+		return len(x.Def.Args) == 0 && c07IsQuoteDef(jq, x.Def.Name) != nil
+	})
+	return cl
 }
 
 // ---------------------------------------------------------------------------
@@ -897,14 +897,16 @@ func c07IsQuoteDef(jq *fw.JQ, name string) *c07Quote {
 	return out
 }
 
-func c07QuoteMeta(r *fw.Run, p *fw.Program, jq *fw.JQ) {
+func c07QuoteMeta(r *fw.Run, p *fw.Program, jq *fw.JQ, ref *c07Ref) {
 	ru := r.Rule("C07.quotemeta", "the regexp-quoting definition used by split/1 is gsub of a named character class that contains every metacharacter regexp.QuoteMeta escapes (\\.+*?()|[]{}^$) and no letter/digit/underscore, replaced by backslash + the character", 15)
 	// role: the definition the separator is piped through in split/1
 	var name string
 	if d := jq.Def("", "split", 1); d != nil {
-		for _, c := range fw.JQCalls(d.Def.Body) {
-			if len(c.Args) == 0 && c07IsQuoteDef(jq, c.Name) != nil {
-				name = c.Name
+		if cl := c07SplitInlined(jq, ref, d); cl != nil {
+			for _, c := range fw.JQCalls(cl.Body) {
+				if len(c.Args) == 0 && c07IsQuoteDef(jq, c.Name) != nil {
+					name = c.Name
+				}
 			}
 		}
 	}
